@@ -492,6 +492,7 @@ def run_contract(c, root='/repo/src', verbose=False):
             break
         ctx = Ctx(prefix, timeout_ms=int(c.timeout_ms * float(os.environ.get('PYVC_TIMEOUT_SCALE', '1'))), label=c.cid)
         it = Interp(program, ctx, lib)
+        ctx.interp = it
         vc = VC(c, it, program)
         try:
             c.run(vc)
